@@ -154,6 +154,19 @@ def judge_serialize(ctx, case):
     bad = []
     node = bridge.mk_node(xk, tn, "ctor", public=case.get("public", False))
     private = not case.get("public", False)
+    kf = case.get("ctor_key_form")
+    if kf and not private:
+        # a public node built by the CONSTRUCTOR from another SEC serialisation of the same point (uncompressed, and - with the
+        # ecdsa backend - hybrid / raw): what it prints must still carry the compressed key only.  (Only printing is judged
+        # here; a constructor that refuses the form is fine.)
+        from btc_hd_wallet.bip32 import PubKeyNode
+        x, y = xk.K[0].to_bytes(32, "big"), xk.K[1].to_bytes(32, "big")
+        enc = {"uncompressed": b"\x04" + x + y, "hybrid": bytes([6 + (xk.K[1] & 1)]) + x + y, "raw64": x + y}[kf]
+        try:
+            node = PubKeyNode(key=enc, chain_code=xk.c, index=xk.index, depth=xk.depth, testnet=tn, parent_fingerprint=xk.pfp)
+            node.extended_public_key()
+        except Exception as e:  # noqa
+            return ctx.judge("serialize", True, case, "node", e, cls="ser|ctor-%s|refused" % kf, outcome="form-refused")
     for (typ, net, purpose), ver in rb32.SLIP132.items():
         if typ == "prv" and not private:
             continue
@@ -306,6 +319,8 @@ def run(ctx):
         case = gen_xkey(rnd, lzx)
         case["testnet"] = rnd.random() < 0.5
         case["public"] = rnd.random() < 0.4
+        if case["public"] and rnd.random() < 0.4:
+            case["ctor_key_form"] = rnd.choice(["uncompressed", "uncompressed", "hybrid", "raw64"])
         judge_serialize(ctx, case)
     # unknown versions
     n = 0
